@@ -1135,6 +1135,13 @@ def replay_c14(d, case):
 
 def replay_c19(d, case):
     from amr_kitchen import PlotfileCooker
+    if case.get('cpus'):
+        w = case['cpus']
+        os.cpu_count = lambda: w
+        if hasattr(os, 'process_cpu_count'):
+            os.process_cpu_count = lambda: w
+        if hasattr(os, 'sched_getaffinity'):
+            os.sched_getaffinity = lambda pid=0: set(range(w))
     pck = PlotfileCooker(os.path.join(d, 'plt')) if case.get('limit') is None else PlotfileCooker(os.path.join(d, 'plt'), limit_level=case['limit'])
     fsel = eval(case['fsel'])
     try:
